@@ -553,7 +553,12 @@ func (t *hdStrTable) check(c *vrun.Ctx, w *world, s, shape, what string, replay 
 	if !ok {
 		return a, fmt.Errorf("%s %q: no row for abstract serialised key %+v", what, s, a)
 	}
-	k, err := hdkeychain.NewKeyFromString(s)
+	var k *hdkeychain.ExtendedKey
+	var err error
+	if pn := safely(func() { k, err = hdkeychain.NewKeyFromString(s) }); pn != "" {
+		c.Violation("hdstr:"+shape+":panic", fmt.Sprintf("NewKeyFromString(%q) [%s] panics: %s", s, what, pn), map[string]any{"string": s, "case": replay})
+		return a, nil
+	}
 	c.AddEval(1)
 	bad := func(key, why string) {
 		c.Violation("hdstr:"+shape+":"+key, fmt.Sprintf("NewKeyFromString(%q) [%s]: %s", s, what, why),
